@@ -1359,6 +1359,8 @@ class Interp:
 
         if isinstance(v, (_re.Pattern, _re.Match)):
             return True  # concrete re objects (see attrs.re_method) are always truthy
+        if isinstance(v, Opaque) and v.desc == "traceback":
+            return True  # the traceback object handed to __exit__ (loops.exec_with) is never falsy
         raise Unsupported("truth value of %r" % (v,))
 
     # iteration ----------------------------------------------------------------
